@@ -118,7 +118,8 @@ func (l *listener) receiveRetry(ctx context.Context) (ndp.Message, netip.Addr, e
 	// TODO(mdlayher): consider parameterizing in the future if need be.
 	const retries = 5
 
-	for i := 0; i < retries; i++ {
+	// Only timeouts count against the number of retries.
+	for i := 0; i < retries; {
 		// Enable cancelation before receiving any messages, if necessary.
 		if err := ctx.Err(); err != nil {
 			return nil, netip.Addr{}, err
@@ -140,6 +141,7 @@ func (l *listener) receiveRetry(ctx context.Context) (ndp.Message, netip.Addr, e
 					return nil, netip.Addr{}, ctx.Err()
 				case <-time.After(time.Duration(i) * 50 * time.Millisecond):
 				}
+				i++
 				continue
 			}
 
